@@ -192,7 +192,7 @@ ENGINE = {
 }
 
 
-PENDING = {"C01", "C03"}  # property ids whose check exists but is not registered yet
+PENDING = set()  # property ids whose check exists but is not registered yet
 
 
 def main():
